@@ -30,6 +30,9 @@ handlers before the catch-all in the drivers.
 
 Round 6: each bit-run member merges its own value (C07-d); every generated half can name what
 its handlers use (C15-E); a context-manager class used by the drivers is their handler.
+Round 7: (e') the text of every package exception class is computable at every raise site; a run
+packed inside a comprehension binds the handler's name in another scope; a child's PacketError
+passes through the enclosing field unchanged.
 """
 import ast
 import re
